@@ -154,6 +154,7 @@ def units(tier):
             out.append({'fam': 'raw', 'op': o, 'handler': 'mapnone', 'down': 'last', 'depth': 5 if tier == 'quick' else 6})
     out.append({'fam': 'routers', 'L': 4 if tier == 'quick' else 5})
     out.append({'fam': 'late', 'L': 4 if tier == 'quick' else 6})
+    out.append({'fam': 'branch', 'L': 4 if tier == 'quick' else 5})
     for o in OPS:
         for h in HANDLERS:
             for parent in THROUGH:
@@ -184,6 +185,15 @@ def cases(unit):
         for n in range(1, unit['L'] + 1):
             for flags in itertools.product([0, 1, 2], repeat=n):
                 yield {'fam': 'routers', 'flags': list(flags)}
+        return
+    if unit['fam'] == 'branch':
+        # the failing operator INSIDE a tee_map branch (first, last, middle of three), handled there or not
+        for n in range(1, unit['L'] + 1):
+            for flags in itertools.product([0, 1], repeat=n):
+                for o in ('map', 'scan'):
+                    for h in ('none', 'ignore'):
+                        for pos in (0, 1, 2):
+                            yield {'fam': 'branch', 'op': o, 'handler': h, 'flags': list(flags), 'pos': pos}
         return
     if unit['fam'] == 'late':
         # a hot source; the dead-letter observable gets its subscriber AFTER the data pipeline was subscribed (before any item)
@@ -404,6 +414,60 @@ def run_through(case, acc):
     return out
 
 
+def run_branch(case, acc):
+    flags, h, pos = case['flags'], case['handler'], case['pos']
+    items = [10 * i + f for i, f in enumerate(flags)]
+    failing = [OPS[case['op']][0]()] + ([rs.error.ignore()] if h == 'ignore' else []) + [rs.ops.count()]
+    branches = [[rs.ops.count()], [rs.ops.count()]]
+    if pos == 2:
+        branches = [[rs.ops.count()], failing, [rs.ops.map(lambda x: -x)]]
+    else:
+        branches[pos] = failing
+    sink = Sink()
+    sink.subscribe_to(rx.from_(items).pipe(rs.state.with_memory_store([rs.ops.tee_map(*branches, join='merge')])))
+    acc.evals += 1
+    acc.events += len(items) + 1
+    acc.traces += 1
+    acc.count('failing_operator_inside_a_tee_map_branch')
+    # merge: per source item the outputs of the branches in branch order
+    exp, n_all, n_ok = [], 0, 0
+    first_fail = flags.index(1) if 1 in flags else None
+    for i, x in enumerate(items):
+        n_all += 1
+        ok = not flags[i]
+        if ok:
+            n_ok += 1
+        row = []
+        for b in range(len(branches)):
+            is_failing = b == (1 if pos == 2 else pos)          # pos 2: the failing branch is the middle one of three
+            if is_failing:
+                if ok:
+                    row.append(n_ok)
+                elif h == 'none':
+                    row.append('STOP')
+            elif pos == 2 and b == 2:
+                row.append(-x)
+            else:
+                row.append(n_all)
+        if 'STOP' in row:
+            exp.extend(row[:row.index('STOP')])
+            break
+        exp.extend(row)
+    out = []
+    if h == 'none' and first_fail is not None:
+        if sink.error is None or _item_of(sink.error) != items[first_fail] or sink.completed:
+            out.append(viol(case, 'error-inside-tee_map-branch-%d-not-surfaced' % pos, {'items': items, 'status': sink.status(), 'emitted': sink.items}))
+        elif sink.items != exp:
+            out.append(viol(case, 'outputs-before-the-error-inside-a-branch-' + str(harness.diff_kind(exp, sink.items)), {'items': items, 'expected': exp, 'observed': sink.items}))
+    else:
+        if sink.error is not None or sink.completed != 1:
+            out.append(viol(case, 'branch-%d-stream-not-completed' % pos, {'items': items, 'error': repr(sink.error)}))
+        elif sink.items != exp:
+            out.append(viol(case, 'branch-%d-main-output-%s' % (pos, harness.diff_kind(exp, sink.items)), {'items': items, 'expected': exp, 'observed': sink.items}))
+    acc.outcomes.add(fast_hash(repr((case, sink.items))))
+    return out
+
+
 def run_late(case, acc):
     from rx.subject import Subject
     flags = case['flags']
@@ -476,6 +540,8 @@ def run_late(case, acc):
 def run_case(case, acc):
     if case['fam'] == 'late':
         return run_late(case, acc)
+    if case['fam'] == 'branch':
+        return run_branch(case, acc)
     if case['fam'] == 'raw':
         return run_raw(case, acc)
     if case['fam'] == 'through':
